@@ -494,6 +494,20 @@ def has_compound_exponent(t):
     return any(s[0] == 6 and not closed_exponent(s[2]) for s in subtrees(t))
 
 
+def model_may_decline(t):
+    """structural reasons for which Model/UnitCalc.v infer answers "declined" (no opinion): floor / ceiling (of a float it
+    does not track), a constant (pi, E), an exponent that is not a sum / product of numbers, quantities and variables,
+    a non-integer exponent (irrational or complex magnitudes)"""
+    def plain(x):
+        return x[0] in (0, 2, 3) or (x[0] in (4, 5) and all(plain(a) for a in x[1:]))
+    for s in subtrees(t):
+        if s[0] == 1 or (s[0] == 7 and s[1] in (3, 4)):
+            return True
+        if s[0] == 6 and (not plain(s[2]) or (s[2][0] == 0 and s[2][2].denominator != 1)):
+            return True
+    return False
+
+
 def has_fn(t, ids):
     return any(s[0] == 7 and s[1] in ids for s in subtrees(t))
 
